@@ -58,6 +58,20 @@ func c19(args []string) error {
 				seqs[k] = randSeq(r, L, func(r *rand.Rand) byte { return "ACGTACGTACGT-N"[r.Intn(14)] })
 			}
 		}
+		if !prot && r.Intn(4) == 0 {
+			// RNA spelling and soft-masked residues: an in-place transform that is undone afterwards must restore them
+			for k := range seqs {
+				b := []byte(seqs[k])
+				for j := range b {
+					if b[j] == 'T' && r.Intn(2) == 0 {
+						b[j] = "Uu"[r.Intn(2)]
+					} else if r.Intn(6) == 0 && b[j] >= 'A' && b[j] <= 'Z' {
+						b[j] += 32
+					}
+				}
+				seqs[k] = string(b)
+			}
+		}
 		alpha := align.NUCLEOTIDS
 		if prot {
 			alpha = align.AMINOACIDS
